@@ -268,10 +268,13 @@ fn gen_sys_n(rng: &mut Rng, out: &mut Vec<String>, count: usize, cap: usize) {
         let tol = *rng.pick(&[1e-10, 1e-8, 1e-6, 1e-4]);
         let delta = *rng.pick(&[1e-8, 1e-6, 1.0 / 1048576.0]);
         // the three choices are drawn independently (small budgets must meet every one of the four variants)
-        let _ = i;
         let max_iter = if rng.chance(25) { rng.below(5) } else { 20 + rng.below(31) };
         let cplx = rng.chance(30);
         let mode_exact = rng.chance(50);
+        // the first 16 cases meet every variant (real / complex x supplied / finite-difference Jacobian) with the budgets 0 and 1
+        // deterministically (seeded change S10-C17 was reported through three random hits only); the draws above are kept so that the
+        // rest of the stream is unchanged
+        let (max_iter, cplx, mode_exact) = if cap == 0 && i < 16 { (i % 2, (i / 2) % 2 == 1, (i / 4) % 2 == 1) } else { (max_iter, cplx, mode_exact) };
         let emit = |tag: &str, guess: String, root: String, f: String, jac: String, fam: &str| format!("newton_v {} {} {} {} {} {} {} {} {}", tag, guess, tol.wr(), delta.wr(), max_iter, fam, root, f, if mode_exact { format!("exact {}", jac) } else { "fd".into() });
         // guesses whose components are at very DIFFERENT distances from the root (exact, 1e-9, 1e-6, 0.15, in a random
         // arrangement) on weakly coupled systems: the residual components then differ by many orders of magnitude and the
